@@ -130,7 +130,12 @@ def rebuildSwnm (cfg : RichCfg) (secs : List RSection) (order : Option (List Nat
   -- the names the SWNM holds are placed first; then the switches the triggers use (set order)
   let named := swnm.filter hasCustomName
   let usedD := allocOrder order (dedupBy RSwitch.same used)
-  let allUsed := named ++ usedD.filter fun u => !(named.any fun n => RSwitch.same n u)
+  let usedNew := usedD.filter fun u => !(named.any fun n => RSwitch.same n u)
+  let allUsed := named ++ usedNew
+  -- two different names given to one switch number by the triggers cannot both be stored: ValueError
+  let given : List (Nat × Bytes) := usedNew.filterMap fun s =>
+    if hasCustomName s then s.idx.map fun i => (i, s.name.value) else none
+  if given.any (fun p => given.any fun q => p.1 == q.1 && p.2 != q.2) then .error .value else
   let carried := allUsed.filterMap (·.idx)
   let free := (List.range cfg.switchSlots).filter fun i => !carried.contains i
   let rec go : List RSwitch → List Nat → List RSwitch → List (RSwitch × Nat) → R (List RSwitch × List (RSwitch × Nat))
